@@ -252,6 +252,11 @@ func checkC03(w *World, run *simrt.Run) {
 	}
 	if pipe.CutBy != "" {
 		w.Probe("cut-fired")
+		if f.Kind == "cut" {
+			w.Points = append(w.Points, fmt.Sprintf("conv%d/cut/side%d/rst=%v/off%d", w.P.Params["conv"], f.Side, f.RST, f.Offset))
+		} else {
+			w.Points = append(w.Points, fmt.Sprintf("conv%d/%s/op%d", w.P.Params["conv"], f.Kind, f.AtOp))
+		}
 	}
 	if f.Kind == "cut" && pipe.CutBy != "" {
 		wi := w.wireOf(0)
